@@ -310,6 +310,9 @@ pub struct WorkerArgs {
     pub seed: u64,
     pub shard: u64,
     pub nshards: u64,
+    /// resume a shard after the named case ("F3" / "G120"): earlier cases are regenerated (to keep
+    /// the random sequence) but not evaluated
+    pub resume_after: Option<String>,
 }
 
 fn shard_cases<P: Prop>(tier: Tier, shard: u64, nshards: u64) -> u64 {
@@ -332,7 +335,8 @@ pub fn worker<P: Prop>(a: &WorkerArgs) -> i32 {
     let name = Arc::new(Mutex::new(String::new()));
     RSS_LIMIT_MB.store(P::rss_limit_mb(), Ordering::Relaxed);
     start_watchdog(
-        P::case_deadline_s(),
+        // VERIF_CASE_DEADLINE_S: only for exercising the resume path of the runner itself
+        std::env::var("VERIF_CASE_DEADLINE_S").ok().and_then(|s| s.parse().ok()).unwrap_or(P::case_deadline_s()),
         name.clone(),
         Box::new(|n| {
             let sub = CUR_SUB.lock().map(|g| g.clone()).unwrap_or_default();
@@ -406,10 +410,20 @@ pub fn worker<P: Prop>(a: &WorkerArgs) -> i32 {
         }
     };
 
+    // resuming: which cases were already dealt with by an earlier worker of this shard
+    let idx_num = |s: &str| s.trim_end_matches("~shrink")[1..].parse::<u64>().ok();
+    let (skip_fixed_upto, skip_gen_upto): (Option<u64>, Option<u64>) = match a.resume_after.as_deref() {
+        None => (None, None),
+        Some(r) if r.starts_with('F') => (idx_num(r), None),
+        Some(r) => (Some(u64::MAX), idx_num(r)),
+    };
     // fixed cases
     let fixed = P::fixed_cases(a.tier);
     for (k, case) in fixed.iter().enumerate() {
         if (k as u64) % a.nshards != a.shard {
+            continue;
+        }
+        if skip_fixed_upto.map(|u| k as u64 <= u).unwrap_or(false) {
             continue;
         }
         let idx = format!("F{}", k);
@@ -447,6 +461,9 @@ pub fn worker<P: Prop>(a: &WorkerArgs) -> i32 {
                 return 2;
             }
         };
+        if skip_gen_upto.map(|u| i <= u).unwrap_or(false) {
+            continue;
+        }
         let idx = format!("G{}", i);
         if let Err(msg) = run_one(idx.clone(), &case) {
             if msg == "reported" {
@@ -664,6 +681,12 @@ struct Agg {
     hang_subs: BTreeMap<u64, serde_json::Value>,
     crashes: Vec<(u64, String)>,
     done: u64,
+    generated_run: u64,
+}
+
+impl Agg {
+    /// the published sub-cases belong to the hangs of the round just finished
+    fn hang_subs_round_done(&mut self) {}
 }
 
 pub struct ParentArgs {
@@ -769,9 +792,17 @@ pub fn parent<P: Prop>(a: &ParentArgs) -> i32 {
         }
     }
 
-    // 3. workers
+    // 3. workers; a shard whose case hit the deadline only because the machine was busy (it passes
+    //    alone, three times) is resumed after that case, so a slow case costs one case, not a shard
+    let mut pending: Vec<(u64, Option<String>)> = (0..nshards).map(|s| (s, None)).collect();
+    let mut resumed: BTreeMap<u64, u32> = BTreeMap::new();
+    let mut fails_all: Vec<(u64, String, serde_json::Value)> = vec![];
+    let mut unconfirmed = 0u64;
+    let mut stopped_shards = 0u64;
+    loop {
+    let mut next_pending: Vec<(u64, Option<String>)> = vec![];
     let mut children = vec![];
-    for shard in 0..nshards {
+    for (shard, resume_after) in pending.drain(..) {
         let mut cmd = Command::new(&exe);
         cmd.args([
             "worker",
@@ -784,8 +815,11 @@ pub fn parent<P: Prop>(a: &ParentArgs) -> i32 {
             &shard.to_string(),
             "--nshards",
             &nshards.to_string(),
-        ])
-        .env("RUST_BACKTRACE", "0")
+        ]);
+        if let Some(r) = &resume_after {
+            cmd.args(["--resume-after", r]);
+        }
+        cmd.env("RUST_BACKTRACE", "0")
         .env("VERIF_TIER", a.tier.name())
         .stdout(Stdio::piped())
         .stderr(Stdio::null());
@@ -806,6 +840,9 @@ pub fn parent<P: Prop>(a: &ParentArgs) -> i32 {
                     inflight = Some(r.to_string());
                 } else if let Some(r) = line.strip_prefix("E ") {
                     inflight = None;
+                    if r.starts_with('G') {
+                        g.generated_run += 1;
+                    }
                     let p: Vec<&str> = r.splitn(6, ' ').collect();
                     if p.len() >= 5 {
                         g.evaluations += 1 + p[3].parse::<u64>().unwrap_or(0);
@@ -866,6 +903,7 @@ pub fn parent<P: Prop>(a: &ParentArgs) -> i32 {
         let _ = th.join();
     }
     let mut g = agg.lock().unwrap();
+    g.hang_subs_round_done();
 
     // 4. failures
     let fails = std::mem::take(&mut g.fails);
@@ -879,14 +917,13 @@ pub fn parent<P: Prop>(a: &ParentArgs) -> i32 {
     }
     // hangs and crashes: regenerate, confirm alone, shrink externally
     let mut suspects: Vec<(u64, String, bool)> = vec![];
-    for (s, i) in g.hangs.iter() {
-        suspects.push((*s, i.clone(), true));
+    for (s, i) in std::mem::take(&mut g.hangs) {
+        suspects.push((s, i, true));
     }
-    for (s, i) in g.crashes.iter() {
-        suspects.push((*s, i.clone(), false));
+    for (s, i) in std::mem::take(&mut g.crashes) {
+        suspects.push((s, i, false));
     }
     let mut examined = 0usize;
-    let mut unconfirmed = 0u64;
     for (shard, idx, was_hang) in suspects {
         // a failing tree usually makes every worker stop at the same defect: confirm and shrink
         // the first two suspects, then stop spending minutes on more of the same
@@ -904,6 +941,7 @@ pub fn parent<P: Prop>(a: &ParentArgs) -> i32 {
             seed: a.seed,
             shard,
             nshards,
+            resume_after: None,
         };
         let sub_case: Option<P::Case> = if was_hang {
             g.hang_subs.get(&shard).and_then(|v| serde_json::from_value(v.clone()).ok())
@@ -956,16 +994,27 @@ pub fn parent<P: Prop>(a: &ParentArgs) -> i32 {
             break;
         }
         if !confirmed && kind.starts_with("passes alone") {
-            // slow under load, not a finding: recorded in the evidence, the rest of that shard is lost
+            // slow under load, not a finding: recorded in the evidence; the shard goes on after it
+            let r = resumed.entry(shard).or_insert(0);
+            *r += 1;
+            let go_on = *r <= 40;
             let n = format!(
-                "case {} of shard {} {} but passed 3 runs alone with a 90 s deadline (machine load); the shard stopped there",
+                "case {} of shard {} {} but passed 3 runs alone with a 90 s deadline (machine load); {}",
                 idx,
                 shard,
-                if was_hang { "hit the per-case deadline" } else { "lost its worker" }
+                if was_hang { "hit the per-case deadline" } else { "lost its worker" },
+                if go_on { "the shard was resumed after it" } else { "the shard stopped there (resumed 40 times already)" }
             );
             println!("note: {}", n);
-            g.notes.push(n);
+            if g.notes.len() < 80 {
+                g.notes.push(n);
+            }
             unconfirmed += 1;
+            if go_on {
+                next_pending.push((shard, Some(idx.trim_end_matches("~shrink").to_string())));
+            } else {
+                stopped_shards += 1;
+            }
             continue;
         }
         if !confirmed {
@@ -1002,6 +1051,16 @@ pub fn parent<P: Prop>(a: &ParentArgs) -> i32 {
         violations.push(rp);
     }
 
+    fails_all.extend(fails);
+    drop(g);
+    if next_pending.is_empty() || !violations.is_empty() {
+        break;
+    }
+    pending = next_pending;
+    }
+    let fails = fails_all;
+    let mut g = agg.lock().unwrap();
+
     // 5. evidence
     let mut samples: Vec<serde_json::Value> = vec![];
     g.samples.sort_by_key(|s| s.to_string().len());
@@ -1029,7 +1088,7 @@ pub fn parent<P: Prop>(a: &ParentArgs) -> i32 {
     if samples.is_empty() {
         if let Some(c) = P::fixed_cases(a.tier).into_iter().next() {
             samples.push(serde_json::to_value(&c).unwrap_or(serde_json::Value::Null));
-        } else if let Some(c) = dump::<P>(&WorkerArgs { tier: a.tier, seed: a.seed, shard: 0, nshards }, "G0") {
+        } else if let Some(c) = dump::<P>(&WorkerArgs { tier: a.tier, seed: a.seed, shard: 0, nshards, resume_after: None }, "G0") {
             samples.push(serde_json::to_value(&c).unwrap_or(serde_json::Value::Null));
         }
     }
@@ -1046,7 +1105,9 @@ pub fn parent<P: Prop>(a: &ParentArgs) -> i32 {
             "rule": P::rule(),
             "samples": samples,
             "exhaustive": P::exhaustive(a.tier),
-            "generated_cases": P::cases(a.tier),
+            "generated_cases": g.generated_run,
+            "generated_cases_planned": P::cases(a.tier),
+            "cases_skipped_slow_under_load": unconfirmed,
             "fixed_cases": P::fixed_cases(a.tier).len(),
             "regression_replays": reg_count,
             "labels": g.labels,
@@ -1083,7 +1144,7 @@ pub fn parent<P: Prop>(a: &ParentArgs) -> i32 {
     if !violations.is_empty() {
         return 1;
     }
-    if !inconclusive.is_empty() || g.done + unconfirmed < nshards {
+    if !inconclusive.is_empty() || g.done + stopped_shards < nshards {
         return 2;
     }
     0
@@ -1115,6 +1176,7 @@ pub fn dispatch<P: Prop>(args: &[String], verif_dir: &str) -> i32 {
                 seed,
                 shard: arg_val(args, "--shard").and_then(|s| s.parse().ok()).unwrap_or(0),
                 nshards: arg_val(args, "--nshards").and_then(|s| s.parse().ok()).unwrap_or(1),
+                resume_after: arg_val(args, "--resume-after"),
             };
             worker::<P>(&wa)
         }
@@ -1124,6 +1186,7 @@ pub fn dispatch<P: Prop>(args: &[String], verif_dir: &str) -> i32 {
                 seed,
                 shard: arg_val(args, "--shard").and_then(|s| s.parse().ok()).unwrap_or(0),
                 nshards: arg_val(args, "--nshards").and_then(|s| s.parse().ok()).unwrap_or(1),
+                resume_after: None,
             };
             match dump::<P>(&wa, &arg_val(args, "--idx").unwrap_or_default()) {
                 Some(c) => {
